@@ -52,10 +52,15 @@ def check_history(case, runs, mline, hash_by_cfg):
         elif ca[0] not in (0, 1):
             fails.append({"run": i, "kind": r["kind"], "fatal_rc": ca[0], "stderr": ca[2][-400:]})
         # ---- model vs implementation
-        pu = parse_out(r["kind"], un[1])
+        def rooted(po):
+            # a run started in a sub-directory spells paths relative to it
+            if po and po[0] == "files" and r.get("subdir"):
+                return ("files", {"./" + r["subdir"] + k[1:]: v for k, v in po[1].items()})
+            return po
+        pu = rooted(parse_out(r["kind"], un[1]))
         if pu != model_out(r["kind"], mu):
             mism.append({"run": i, "side": "uncached", "impl": str(pu)[:600], "model": str(model_out(r["kind"], mu))[:600]})
-        pc = parse_out(r["kind"], ca[1])
+        pc = rooted(parse_out(r["kind"], ca[1]))
         if pc != model_out(r["kind"], mc):
             mism.append({"run": i, "side": "cached", "impl": str(pc)[:600], "model": str(model_out(r["kind"], mc))[:600]})
         mv = mcache.split(" ")
@@ -93,48 +98,64 @@ def truncation_sweep(ctx, exe, contents, step):
     return cases, size
 
 
-def key_collision_witnesses(ctx, exe):
-    """Two findings about the cache KEY (outside the Coq model, which takes paths as identities): keys are made with
-    to_string_lossy, and they are relative to the working directory while the cache file belongs to the project root.
-    Each scenario: cached run vs --no-sloc-cache twin."""
-    hits = []
-    env = {"RAYON_NUM_THREADS": "1"}
+def key_scenarios(exe):
+    """Oracles for the cache KEY on inputs the history generator cannot spell with its path ids: (a) the same relative
+    spelling ./a.rs from two working directories of one project, (b) two non-UTF-8 names with the same lossy spelling
+    (such paths bypass the cache since D40). Each: cached == --no-sloc-cache AND both equal the true counts (before D40
+    the uncached run was wrong as well, through the in-memory cache). Returns failure dicts (input = the script)."""
+    import subprocess
+    fails = []
+    base_env = {"RAYON_NUM_THREADS": "1"}
 
-    def pair(sb, args, cwd, now):
-        e = dict(env, SGV_NOW=str(now))
-        ca = sb.run(exe, args, cwd=cwd, env=e)
-        un = sb.run(exe, args + ["--no-sloc-cache"], cwd=cwd, env=e)
-        return ca[:2] != un[:2], ca[1][:300], un[1][:300]
-    # (a) cwd-relative keys: ./a.rs of the project root and ./a.rs seen from inside sub/, same second and size
-    with Sandbox("sgv-c12-") as sb:
-        sb.write(".sloc-guard.toml", "")
-        for rel, text in (("a.rs", "x=1;\nx=1;\n"), ("sub/a.rs", "x=1;\n// c\n")):
-            os.utime(sb.write(rel, text), (T0, T0))
-        sb.run(exe, ["stats", "files", "--format", "json"], cwd=os.path.join(sb.proj, "sub"), env=dict(env, SGV_NOW=str(T0 + 10)))
-        d, ca, un = pair(sb, ["--color", "never", "stats", "files", "--format", "json"], sb.proj, T0 + 20)
-        ctx.cov.setdefault("scripted_witnesses", {})["K12_cwd_relative_key"] = "reproduces" if d else "does not reproduce"
-        if d:
-            hits.append(("K12_cwd_relative_key", "cached %s / uncached %s" % (ca, un)))
-    # (b) lossy keys: two non-UTF-8 names with the same lossy spelling, same second and size
-    with Sandbox("sgv-c12-") as sb:
-        sb.write(".sloc-guard.toml", "")
-        os.makedirs(os.path.join(sb.proj, "src"))
-        names = (b"a\xff.rs", b"a\xfe.rs")
+    def run(sb, args, cwd, now):
+        e = dict(sb.env, SGV_NOW=str(now), **base_env)
+        p = subprocess.run([exe.encode() if isinstance(args[0], bytes) else exe] + args, cwd=cwd, env=e, capture_output=True, timeout=60)
+        return p.returncode, p.stdout.decode("utf-8", "replace")
+
+    def summary(out):
         try:
-            for nm, text in zip(names, (b"x=1;\nx=1;\n", b"x=1;\n// c\n")):
-                fp = os.path.join(sb.proj.encode(), b"src", nm)
-                open(fp, "wb").write(text)
-                os.utime(fp, (T0, T0))
-            import subprocess
-            e = dict(sb.env, SGV_NOW=str(T0 + 10), **env)
-            subprocess.run([exe.encode(), b"check", b"--files", b"./src/" + names[0], b"--format", b"json"], cwd=sb.proj, env=e, capture_output=True, timeout=60)
-            d, ca, un = pair(sb, ["--color", "never", "stats", "summary", "--format", "json"], sb.proj, T0 + 20)
-            ctx.cov["scripted_witnesses"]["K12_lossy_key"] = "reproduces" if d else "does not reproduce"
-            if d:
-                hits.append(("K12_lossy_key", "cached %s / uncached %s" % (ca, un)))
-        except OSError:
-            ctx.cov["scripted_witnesses"]["K12_lossy_key"] = "file system refuses non-UTF-8 names"
-    return hits
+            x = json.loads(out)["summary"]
+            return (x["total_files"], x["total_lines"], x["code"], x["comment"], x["blank"])
+        except Exception:
+            return None
+    A, B = "x=1;\nx=1;\n", "x=1;\n// c\n"          # same size; truth: (2 lines, 2 code) / (2 lines, 1 code, 1 comment)
+    # (a) working directories: prime from one directory, then compare in the other
+    for first in ("sub", "root"):
+        with Sandbox("sgv-c12-") as sb:
+            sb.write(".sloc-guard.toml", "")
+            for rel, text in (("a.rs", A), ("sub/a.rs", B)):
+                os.utime(sb.write(rel, text), (T0, T0))
+            d1, d2 = (os.path.join(sb.proj, "sub"), sb.proj) if first == "sub" else (sb.proj, os.path.join(sb.proj, "sub"))
+            run(sb, ["stats", "summary", "--format", "json"], d1, T0 + 10)
+            ca = run(sb, ["stats", "summary", "--format", "json"], d2, T0 + 20)
+            un = run(sb, ["stats", "summary", "--format", "json", "--no-sloc-cache"], d2, T0 + 20)
+            truth = (2, 4, 3, 1, 0) if d2 == sb.proj else (1, 2, 1, 1, 0)
+            if not (ca == un and summary(ca[1]) == truth):
+                fails.append({"scenario": "working-directory", "first_run_from": first,
+                              "steps": "a.rs = 2 code lines, sub/a.rs = 1 code + 1 comment line, same size, mtime %d; `stats summary` from %s at %d (cached); then from the other directory at %d with and without --no-sloc-cache" % (T0, first, T0 + 10, T0 + 20),
+                              "cached": summary(ca[1]), "uncached": summary(un[1]), "truth": truth, "rc": (ca[0], un[0])})
+    # (b) lossy spelling: prime one of the two files with --files, then scan
+    for k in (0, 1):
+        with Sandbox("sgv-c12-") as sb:
+            sb.write(".sloc-guard.toml", "")
+            os.makedirs(os.path.join(sb.proj, "src"))
+            names = (b"a\xff.rs", b"a\xfe.rs")
+            try:
+                for nm, text in zip(names, (A.encode(), B.encode())):
+                    fp = os.path.join(sb.proj.encode(), b"src", nm)
+                    open(fp, "wb").write(text)
+                    os.utime(fp, (T0, T0))
+            except OSError:
+                continue            # the file system refuses such names
+            run(sb, [b"check", b"--files", b"./src/" + names[k], b"--format", b"json"], sb.proj, T0 + 10)
+            ca = run(sb, ["stats", "summary", "--format", "json"], sb.proj, T0 + 20)
+            un = run(sb, ["stats", "summary", "--format", "json", "--no-sloc-cache"], sb.proj, T0 + 20)
+            truth = (2, 4, 3, 1, 0)
+            if not (ca == un and summary(ca[1]) == truth):
+                fails.append({"scenario": "non-utf8-names", "primed": repr(names[k]),
+                              "steps": "src/a\\xff.rs = 2 code lines, src/a\\xfe.rs = 1 code + 1 comment line, same size, mtime %d; `check --files ./src/%r` at %d (cached); `stats summary` at %d with and without --no-sloc-cache, RAYON_NUM_THREADS=1" % (T0, names[k], T0 + 10, T0 + 20),
+                              "cached": summary(ca[1]), "uncached": summary(un[1]), "truth": truth, "rc": (ca[0], un[0])})
+    return fails
 
 
 def run(ctx):
@@ -160,6 +181,8 @@ def run(ctx):
     groups = same_size_pairs(contents)
     for _ in range(24 if quick else 400):
         cases.append({"h": symlink_history(rng, contents, tab, groups), "tag": "symlink"})
+    for _ in range(20 if quick else 300):
+        cases.append({"h": cwd_history(rng, contents, tab, groups), "tag": "working-directory"})
     for _ in range(16 if quick else 300):
         p0, a0, t0 = (rng.choice(FILE_STEMS), rng.choice([1, 2, 3])), rng.randint(1, len(contents)), T0 + rng.randrange(0, 1000)
         cases.append({"h": [("W", p0, a0, t0), ("X", rng.choice(CMDS), [], t0 + 2),
@@ -199,7 +222,7 @@ def run(ctx):
             dist["op:" + o[0]] = dist.get("op:" + o[0], 0) + 1
         seen_run, rewrites = False, False
         for o in c["h"]:
-            if o[0] in ("X", "XF"):
+            if o[0] in ("X", "XF", "XC"):
                 seen_run = True
             elif o[0] in ("W", "R", "D", "L", "C", "K") and seen_run:
                 rewrites = True
@@ -232,17 +255,19 @@ def run(ctx):
                                                 "compute_config_hash is assumed injective on [languages] tables (hypothesis of the theorems); tied in the run: same table -> same hash, different tables -> different hashes",
                                                 "SGV_NOW clock hook, os.utime; mtime of a rename is preserved by the file system"]
     ctx.assumptions = ["wall-clock values of a history never decrease and a file's mtime is the second of its last write",
-                       "the cache key identifies the file: the model takes paths as identities (fails for non-UTF-8 names with the same lossy spelling and for runs from different working directories: findings K12_lossy_key, K12_cwd_relative_key, scripted witnesses in the run)",
+                       "the cache key identifies the file (the model takes paths as identities): justified for UTF-8 paths by the absolute-path key (D41; runs from the root and from sub-directories share the project cache in the generated histories), non-UTF-8 paths bypass the cache (D40; theorem C12_unkeyed_path_independent); both also exercised by the key scenarios of the run",
                        "a symbolic link named explicitly is, as fs::metadata / fs::read see it, another name for the target's content and mtime (model op Copy; the replay mirrors every change of the target on the link path)",
                        "single-owner extensions in [languages] (two custom languages claiming one extension: D23, C20)"]
     xcheck(ctx, cases, mlines, 12 if quick else 60)
     # ---------------- verdicts
     reported = 0
-    for klass, what in key_collision_witnesses(ctx, exe):
-        if not ctx.known(klass, what):
-            ctx.violation({"kind": "property-oracle", "what": "cached invocation differs from its --no-sloc-cache twin (scripted key-collision scenario)",
-                           "class_not_listed": klass, "observed": what})
-            reported += 1
+    kfails = key_scenarios(exe)
+    ctx.cov["key_scenarios"] = {"run": 4, "failed": len(kfails)}
+    ctx.cov["evaluations"] += 12
+    for f in kfails[:3]:
+        ctx.violation(dict(f, kind="property-oracle", what="cached invocation differs from its --no-sloc-cache twin or from the true counts (cache key scenario)",
+                           replay_cmd="python3 tools/vp.py check C12 --replay <this file>"))
+        reported += 1
     for c, fails, klass in all_fails:
         if klass and ctx.known(klass, "cached run differs from --no-sloc-cache"):
             continue
@@ -257,10 +282,10 @@ def run(ctx):
         extra = []
         for c, _ in all_mism[:6]:
             h = c["h"]
-            last_t = max([o[3] for o in h if o[0] in ("W", "X", "XF")] or [T0])
+            last_t = max([o[3] for o in h if o[0] in ("W", "X", "XF", "XC")] or [T0])
             for k in range(2, len(h) + 1):
-                if h[k - 1][0] not in ("X", "XF"):
-                    extra.append({"h": h[:k] + [("X", "files", [], max([o[3] for o in h[:k] if o[0] in ("W", "X", "XF")] or [T0]))], "tag": "search-prefix", "ctexts": c["ctexts"], "cwire": c["cwire"]})
+                if h[k - 1][0] not in ("X", "XF", "XC"):
+                    extra.append({"h": h[:k] + [("X", "files", [], max([o[3] for o in h[:k] if o[0] in ("W", "X", "XF", "XC")] or [T0]))], "tag": "search-prefix", "ctexts": c["ctexts"], "cwire": c["cwire"]})
             for kind in CMDS:
                 extra.append({"h": h + [("X", kind, [], last_t), ("X", kind, [], last_t + 2)], "tag": "search-extend", "ctexts": c["ctexts"], "cwire": c["cwire"]})
         for _ in range(2 * n_dir):
@@ -354,7 +379,7 @@ def xcheck(ctx, cases, mlines, k):
     exprs = []
     for i in idx:
         hh = "(" + coq_history(cases[i]) + ")"
-        exprs.append("[%s (has_racy_write tr cs ch %s); %s (has_racy_rename tr cs ch %s); %s (has_forgery tr cs ch %s); %s (monotone_clock %s); %s (transparent tr cs ch %s)]" % (b, hh, b, hh, b, hh, b, hh, b, hh))
+        exprs.append("[%s (has_racy_write tr cs ch (fun _ => true) %s); %s (has_racy_rename tr cs ch (fun _ => true) %s); %s (has_forgery tr cs ch (fun _ => true) %s); %s (monotone_clock %s); %s (transparent tr cs ch (fun _ => true) %s)]" % (b, hh, b, hh, b, hh, b, hh, b, hh))
     res = coq_eval(defs, exprs)
     bad = 0
     for i, r in zip(idx, res):
@@ -370,6 +395,11 @@ def xcheck(ctx, cases, mlines, k):
 def replay(ctx, path):
     j = json.load(open(path))
     bins, model = prepare(ctx)
+    if "scenario" in j:
+        for f in key_scenarios(bins["sgcli"]):
+            print("FAIL", json.dumps(f, default=str))
+        print("key scenarios re-run")
+        return 0
     h = norm_history(j["h"])
     contents = j["contents"]
     tab = truth_table(bins["sgv-counter"], contents)
